@@ -71,7 +71,8 @@ theorem not_healthyP_of {reasonable : Int} {cs : ClusterState} {h : String} {c :
   cases hc'
   simp [healthyB, h1, h2, h3] at hb
 
-/-- the possible outcomes of one iteration with loop detector `det` and `fuel` iterations left -/
+/-- the possible outcomes of one iteration with loop detector `det` and `fuel` iterations left
+(`bsfLoop` since the fix: an unregistered configured source falls back to the master instead of a nil dereference) -/
 inductive Step (reasonable : Int) (self : String) (cs : ClusterState) (master : String) (topo : Topology)
     (fuel : Nat) (det : List String) : BSF → Prop
   | toMaster :
@@ -85,11 +86,11 @@ inductive Step (reasonable : Int) (self : String) (cs : ClusterState) (master : 
       streamFromOf topo (det.headD self) ≠ "" → streamFromOf topo (det.headD self) ∉ det →
       det.length = 1 → AlreadyP cs self (streamFromOf topo (det.headD self)) →
       Step reasonable self cs master topo fuel det (.host (streamFromOf topo (det.headD self)))
-  | panicSf :
+  | unregistered :
       streamFromOf topo (det.headD self) ≠ "" → streamFromOf topo (det.headD self) ∉ det →
       (det.length = 1 → (cs.get? self).isSome ∧ ¬ AlreadyP cs self (streamFromOf topo (det.headD self))) →
       cs.get? (streamFromOf topo (det.headD self)) = none →
-      Step reasonable self cs master topo fuel det (.panic "clusterState[streamFrom]")
+      Step reasonable self cs master topo fuel det (.host master)
   | healthy (c : NodeState) :
       streamFromOf topo (det.headD self) ≠ "" → streamFromOf topo (det.headD self) ∉ det →
       (det.length = 1 → (cs.get? self).isSome ∧ ¬ AlreadyP cs self (streamFromOf topo (det.headD self))) →
@@ -134,7 +135,7 @@ theorem bsfLoop_succ (reasonable : Int) (self : String) (cs : ClusterState) (mas
        else if (det.length == 1 && alreadyB cs self (streamFromOf topo (det.headD self))) then
          .host (streamFromOf topo (det.headD self))
        else match cs.get? (streamFromOf topo (det.headD self)) with
-        | none => .panic "clusterState[streamFrom]"
+        | none => .host master
         | some c =>
           if healthyB reasonable c then .host (streamFromOf topo (det.headD self))
           else bsfLoop reasonable self cs master topo fuel (streamFromOf topo (det.headD self) :: det)) := by
@@ -171,7 +172,7 @@ theorem bsfLoop_step (reasonable : Int) (self : String) (cs : ClusterState) (mas
             | none => simp [hg] at h3
             | some _ => rfl
           split
-          · next hg => exact .panicSf h1' h2' h5 hg
+          · next hg => exact .unregistered h1' h2' h5 hg
           · next c hg =>
             split
             · next hb => exact .healthy c h1' h2' h5 hg hb
@@ -203,7 +204,7 @@ theorem bsfLoop_total : ∀ (fuel : Nat) (det vs : List String), det = vs ++ [se
     | toMaster _ => exact BSF.noConfusion
     | panicSelf _ _ _ _ => exact BSF.noConfusion
     | already _ _ _ _ => exact BSF.noConfusion
-    | panicSf _ _ _ _ => exact BSF.noConfusion
+    | unregistered _ _ _ _ => exact BSF.noConfusion
     | healthy c _ _ _ _ _ => exact BSF.noConfusion
     | next c h1 h2 _ _ _ =>
       refine ih _ (streamFromOf topo (det.headD self) :: vs) (by rw [hdet]; rfl) ?_ ?_ ?_
@@ -228,12 +229,12 @@ theorem bsfLoop_never_self (hm : self ≠ master) : ∀ (fuel : Nat) (det : List
     | toMaster _ => intro h; exact hm (BSF.host.inj h).symm
     | panicSelf _ _ _ _ => exact BSF.noConfusion
     | already _ h2 _ _ => intro h; exact h2 (by rw [BSF.host.inj h]; exact hmem)
-    | panicSf _ _ _ _ => exact BSF.noConfusion
+    | unregistered _ _ _ _ => intro h; exact hm (BSF.host.inj h).symm
     | healthy c _ h2 _ _ _ => intro h; exact h2 (by rw [BSF.host.inj h]; exact hmem)
     | next c _ _ _ _ _ => exact ih _ (List.mem_cons_of_mem _ hmem)
 
-theorem bsfLoop_no_panic (hself : (cs.get? self).isSome)
-    (hreg : ∀ k v, (k, v) ∈ topo → v ≠ "" → (cs.get? v).isSome) : ∀ (fuel : Nat) (det : List String),
+/-- since the fix no hypothesis on the configured sources is needed: an unregistered source yields the master -/
+theorem bsfLoop_no_panic (hself : (cs.get? self).isSome) : ∀ (fuel : Nat) (det : List String),
     (∃ r, bsfLoop reasonable self cs master topo fuel det = .host r) ∨
       bsfLoop reasonable self cs master topo fuel det = .outOfFuel := by
   intro fuel
@@ -247,9 +248,7 @@ theorem bsfLoop_no_panic (hself : (cs.get? self).isSome)
     | toMaster _ => exact Or.inl ⟨_, rfl⟩
     | panicSelf _ _ _ hn => rw [hn] at hself; exact absurd hself (by decide)
     | already _ _ _ _ => exact Or.inl ⟨_, rfl⟩
-    | panicSf h1 _ _ hn =>
-      have := hreg _ _ (streamFromOf_mem h1) h1
-      rw [hn] at this; exact absurd this (by decide)
+    | unregistered _ _ _ _ => exact Or.inl ⟨_, rfl⟩
     | healthy c _ _ _ _ _ => exact Or.inl ⟨_, rfl⟩
     | next c _ _ _ _ _ => exact ih _
 
@@ -281,7 +280,7 @@ theorem bsfLoop_nearest (a : Nat → String) (has : ∀ n, a (n + 1) = streamFro
       rw [hreq] at hal
       rw [hsf] at hreq
       exact ⟨1, Nat.le_refl _, hreq, fun j h1 h2 => by omega, Or.inr ⟨rfl, hal⟩⟩
-    | panicSf _ _ _ _ => intro h; exact BSF.noConfusion h
+    | unregistered _ _ _ _ => intro h; exact absurd (BSF.host.inj h).symm hr
     | healthy c _ _ _ hg hb =>
       intro h
       have hreq := BSF.host.inj h
@@ -309,9 +308,29 @@ theorem bsf_first_already (hsf : streamFromOf topo self ≠ "") (hns : streamFro
   | toMaster h => exact absurd h (not_or.mpr ⟨hsf, hnm⟩)
   | panicSelf _ _ _ hn => obtain ⟨me, _, hme, _⟩ := ha; rw [hn] at hme; cases hme
   | already _ _ _ _ => rfl
-  | panicSf _ _ h _ => exact absurd ha (h rfl).2
+  | unregistered _ _ h _ => exact absurd ha (h rfl).2
   | healthy c _ _ _ _ _ => rfl
   | next c _ _ h _ _ => exact absurd ha (h rfl).2
+
+/-- an unregistered configured source yields the master, unless the replica already streams from it
+(then `bsf_first_already` applies) -/
+theorem bsf_first_unregistered (hme : (cs.get? self).isSome)
+    (hn : cs.get? (streamFromOf topo self) = none) (hna : ¬ AlreadyP cs self (streamFromOf topo self)) :
+    findBestStreamFrom reasonable self cs master topo = .host master := by
+  have hstep := bsfLoop_step reasonable self cs master topo (topo.length + 1) [self]
+  show bsfLoop reasonable self cs master topo (topo.length + 1 + 1) [self] = _
+  generalize bsfLoop reasonable self cs master topo (topo.length + 1 + 1) [self] = res at hstep ⊢
+  have hc : ∀ c, cs.get? (streamFromOf topo ([self].headD self)) ≠ some c := by
+    intro c h
+    have h' : cs.get? (streamFromOf topo self) = some c := h
+    rw [hn] at h'; cases h'
+  cases hstep with
+  | toMaster _ => rfl
+  | panicSelf _ _ _ hn' => rw [hn'] at hme; exact absurd hme (by decide)
+  | already _ _ _ ha => exact absurd ha hna
+  | unregistered _ _ _ _ => rfl
+  | healthy c _ _ _ hg _ => exact absurd hg (hc c)
+  | next c _ _ _ hg _ => exact absurd hg (hc c)
 
 theorem bsf_first_healthy (hsf : streamFromOf topo self ≠ "") (hns : streamFromOf topo self ≠ self)
     (hme : (cs.get? self).isSome) (hh : HealthyP reasonable cs (streamFromOf topo self)) :
@@ -324,7 +343,7 @@ theorem bsf_first_healthy (hsf : streamFromOf topo self ≠ "") (hns : streamFro
   | toMaster h => exact absurd h (not_or.mpr ⟨hsf, hnm⟩)
   | panicSelf _ _ _ hn => rw [hn] at hme; exact absurd hme (by decide)
   | already _ _ _ _ => rfl
-  | panicSf _ _ _ hn =>
+  | unregistered _ _ _ hn =>
     have hn' : cs.get? (streamFromOf topo self) = none := hn
     obtain ⟨c, hc, _⟩ := hh; rw [hn'] at hc; cases hc
   | healthy c _ _ _ _ _ => rfl
